@@ -512,7 +512,8 @@ def gen_desc_signature(rng, depth=0):
 
 def gen_desc_recipient(rng, depth=1):
     rs = [gen_desc_recipient(rng, depth - 1) for _ in range(rng.choice([0, 0, 1, 2]))] if depth > 0 else []
-    return A(gen_desc_protected(rng, 0), gen_desc_header(rng, 0), d_opt_b(rbytes(rng) if rng.random() < 0.7 else None), ('a', rs))
+    p = wire_protected(rng) if rng.random() < 0.25 else gen_desc_protected(rng, 0)
+    return A(p, gen_desc_header(rng, 0), d_opt_b(rbytes(rng) if rng.random() < 0.7 else None), ('a', rs))
 
 def gen_desc_msg(rng, ty):
     p = gen_desc_protected(rng, 1); u = gen_desc_header(rng, 1)
@@ -543,7 +544,10 @@ def gen_desc_key(rng, extra_labels=None):
             if (k[0], k[1]) in used: continue
             used.add((k[0], k[1])); params.append(A(k, gen_value(rng, 1)))
     else:
-        params = [A(k, gen_scalar(rng)) for k in extra_labels]
+        # values may be containers with entries in no particular order: nothing may touch them
+        CONT = [M((I(1), I(2)), (I(-1), I(1)), (T("a"), I(0)), (I(-3), B(b"x"))), A(I(3), I(1), I(2)), M((T("b"), I(1)), (T("a"), I(2))),
+                M((I(24), A(M((I(2), I(0)), (I(1), I(0)))))), ('g', 24, B(b"\xa2\x02\x00\x01\x00"))]
+        params = [A(k, rng.choice(CONT) if rng.random() < 0.35 else gen_scalar(rng)) for k in extra_labels]
     return A(kty, B(kid), alg, ('a', ops), B(biv), ('a', params))
 
 def gen_desc_timestamp(rng):
@@ -572,7 +576,8 @@ def gen_desc_party(rng):
     return A(s(), s(True), s())
 
 def gen_desc_supp(rng):
-    return A(I(rng.choice([0, 128, 2**32, 2**64 - 1])), gen_desc_protected(rng, 0), d_opt_b(rbytes(rng) if rng.random() < 0.5 else None))
+    p = wire_protected(rng) if rng.random() < 0.3 else gen_desc_protected(rng, 0)
+    return A(I(rng.choice([0, 128, 2**32, 2**64 - 1])), p, d_opt_b(rbytes(rng) if rng.random() < 0.5 else None))
 
 def gen_desc_kdf(rng):
     return A(d_reg(1, rng.choice(ALG_REG)), gen_desc_party(rng), gen_desc_party(rng), gen_desc_supp(rng),
